@@ -138,18 +138,35 @@ func aggregationSuite(depth int) hlib.Suite {
 
 // ---- measurement (whole runs on the default schedule) ----
 
+// how the body ends: the measured interval is the same for all of them
+var endings = []string{"return", "Fail", "FailNow", "Require-assertion", "panic"}
+
+func end(t *f1testing.T, ending string) {
+	switch ending {
+	case "Fail":
+		t.Fail()
+	case "FailNow":
+		t.FailNow()
+	case "Require-assertion":
+		t.Require().True(false)
+	case "panic":
+		panic("body panics")
+	}
+}
+
 func measurementSuite() hlib.Suite {
 	return hlib.Suite{Name: "measurement/body-cleanup-queue-durations", Run: func(r *hlib.Rec) {
 		for _, mode := range []string{"constant", "users"} {
 			for _, body := range []time.Duration{time.Millisecond, 5 * time.Millisecond} {
 				for _, cleanup := range []time.Duration{0, 3 * time.Millisecond} {
 					for _, queued := range []bool{false, true} {
-						for _, fails := range []bool{false, true} {
+						for _, ending := range endings {
+							fails := ending != "return"
 							if mode == "users" && queued {
 								continue
 							}
 							r.Eval()
-							input := fmt.Sprintf("mode=%s body=%s cleanup=%s queued-behind-busy-worker=%v fails=%v", mode, body, cleanup, queued, fails)
+							input := fmt.Sprintf("mode=%s body=%s cleanup=%s queued-behind-busy-worker=%v body-ends-with=%s", mode, body, cleanup, queued, ending)
 							r.SampleCase(input)
 							rs := &hlib.RunSpec{Mode: mode, Quiet: true, CompletionTimeout: time.Second,
 								Opts: options.RunOptions{MaxDuration: 10 * time.Second, Concurrency: 1, MaxIterations: 3, IgnoreDropped: true}}
@@ -166,9 +183,7 @@ func measurementSuite() hlib.Suite {
 										t.Cleanup(func() { vtime.Sleep(cleanup) })
 									}
 									vtime.Sleep(body)
-									if fails {
-										t.Fail()
-									}
+									end(t, ending)
 								}
 							}
 							res := hlib.RunOnce(rs, -1, 0, 60*time.Second)
@@ -233,9 +248,10 @@ func progressSuite() hlib.Suite {
 	return hlib.Suite{Name: "measurement/progress-statistics", Run: func(r *hlib.Rec) {
 		for _, body := range []time.Duration{time.Millisecond, 5 * time.Millisecond} {
 			for _, cleanup := range []time.Duration{0, 3 * time.Millisecond} {
-				for _, rate := range []string{"1/100ms", "3/100ms"} {
+				for i, rate := range []string{"1/100ms", "3/100ms", "1/100ms", "3/100ms", "1/100ms", "3/100ms", "1/100ms", "3/100ms", "1/100ms", "3/100ms"} {
+					ending := endings[i/2]
 					r.Eval()
-					input := fmt.Sprintf("body=%s cleanup=%s rate=%s", body, cleanup, rate)
+					input := fmt.Sprintf("body=%s cleanup=%s rate=%s body-ends-with=%s", body, cleanup, rate, ending)
 					r.SampleCase(input)
 					var snap progress.Snapshot
 					out := vrt.RunDefault(func() {
@@ -247,6 +263,7 @@ func progressSuite() hlib.Suite {
 									t.Cleanup(func() { vtime.Sleep(cleanup) })
 								}
 								vtime.Sleep(body)
+								end(t, ending)
 							}
 						}
 						b, err := rs.Build()
@@ -261,6 +278,9 @@ func progressSuite() hlib.Suite {
 						continue
 					}
 					s := snap.SuccessfulIterationDurations
+					if ending != "return" {
+						s = snap.FailedIterationDurations
+					}
 					if s.Count != 3 || s.Min != body || s.Max != body || s.Average != body {
 						r.Fail("C17/measurement", "progress-statistics", fmt.Sprintf("count %d min %s mean %s max %s, every body took %s", s.Count, s.Min, s.Average, s.Max, body), input)
 					}
